@@ -54,6 +54,6 @@ def check(ctx):
         ctx.exhaustive_parts.append('real code: every length 0..200 x every worker count 1..16 (3216 pairs), three repetitions each')
     return ctx.finish(
         rule='cases: every (length 0..200, worker count 1..16) pair on integer data (x3 data seeds in thorough), each followed by the ALIASED call x.dot_f64(&x) / x.dot(&x) on the same object (exact sum of squares; bit-identical to the two-object call x.dot_f64(&x.clone()), also on float data); per worker count ~11-39 lengths around the worker count each under busy-loop load, under a narrower affinity '
-             'than at the first call, and with general float data; random lengths up to 10^5; overflowing sums of strictly positive finite data (every product finite, two or more of about 1e308, placed everywhere / in the first / middle / last chunk only / one at each end so that only the total overflows; x = y and x != y) for every worker count: three repetitions, sequential dot and aliased calls must all be +inf bit for bit. One event per run. distinct = distinct (kind, length, observed worker count, mode, phase, bit pattern).',
+             'than at the first call, and with general float data; random lengths up to 10^5; overflowing sums of strictly positive finite data (every product finite, two or more of about 1e308, placed everywhere / in the first / middle / last chunk only / one at each end so that only the total overflows; x = y and x != y) for every worker count: three repetitions, sequential dot and aliased calls must all be +inf bit for bit. Signed-zero families on exact data (all products -0.0 / all +0.0 / mixed / one non-zero product among them, zeros on either operand) for every worker count: repetitions, dot and aliased calls compared as bit patterns with +0.0 (or the one product). One event per run. distinct = distinct (kind, length, observed worker count, mode, phase, bit pattern).',
         trusted=['num_cpus::get() observed in-process = worker count used by the call', 'harness projection of f64 to bit pattern and integer', 'TLC', 'double-double reference (general data only)'],
         extra=dict(pairs_covered=full, cpus_available=avail))
